@@ -170,6 +170,7 @@ def check_C15(tier, seed):
         N, tmo = 2, 60
     else:
         N, tmo = 3, 900
+    cat = cat + cores.random_classes(seed, 40 if tier == "quick" else 400)
     cases = [rel_case(g, ["C15"], [], ["-optimize-basic-latin"]) for g in cat]
     cases.append(rel_case(cat[0], ["TWIN"], [], ["-optimize-basic-latin"], suffix="_twin"))
     catcheck.prepare(w, cases)
@@ -177,7 +178,7 @@ def check_C15(tier, seed):
                            validate_pkgs=6 if tier == "quick" else 20)
     twin_check(w, rep, cases[-1])
     std_cov(rep, agg, cases, {"input_bytes_max": N, "alphabet": "all 256 byte values (all runes, surrogates, overlongs, stray continuation bytes)",
-                              "classes": len(cat)},
+                              "classes": len(cat), "random_classes": "seeded sample (seed %d) over boundary runes, ranges and Unicode classes" % seed},
             "one state = one explored path (class of inputs on which both real parsers take the same decisions)",
             REL_FUNCS)
     rep.assumptions += ["classes outside the catalogue and inputs longer than the bound are outside the claim"]
@@ -233,7 +234,7 @@ def check_C12(tier, seed):
 
 def check_C17(tier, seed):
     return run_ref_property("C17", tier, seed, cores.utf8_catalogue(), ["C17"], 3, 4, unconstrained=True, tq=120, tt=1800,
-                            bounds_extra={"AllowInvalidUTF8": "symbolic"})
+                            bounds_extra={"AllowInvalidUTF8": "symbolic"}, rnd=(8, 80, ()))
 
 
 def check_C02(tier, seed):
@@ -250,7 +251,8 @@ def check_C14(tier, seed):
 
 def check_C11(tier, seed):
     return run_ref_property("C11", tier, seed, cores.fault_catalogue(), ["C11"], 3, 4, file_name="f.txt", flagsets_q=("std",), tq=120, tt=1800,
-                            bounds_extra={"fault_plan": "symbolic: per block slot, first two invocations in {none, errA, errB, panic}", "Recover": "symbolic"})
+                            bounds_extra={"fault_plan": "symbolic: per block slot, first two invocations in {none, errA, errB, panic}", "Recover": "symbolic"},
+                            rnd=(8, 80, ("fault",)))
 
 
 def check_C10(tier, seed):
@@ -267,7 +269,7 @@ def check_C10(tier, seed):
         (cores.throw_catalogue(), [[]]),
         (cores.fail_catalogue(), [[]]),
         (cores.context_catalogue(), [[]]),
-        (cores.lr_catalogue(), [["-support-left-recursion"]]),
+        (cores.lr_catalogue() + cores.random_lr(seed, 6 if quick else 60), [["-support-left-recursion"]]),
     ]
     cases = []
     for cat, xs in groups:
@@ -318,7 +320,7 @@ def check_C09(tier, seed):
 
 
 def check_C08(tier, seed):
-    return run_ref_property("C08", tier, seed, cores.lr_catalogue(), ["C08"], 5, 7, tq=120, tt=1800,
+    return run_ref_property("C08", tier, seed, cores.lr_catalogue() + cores.random_lr(seed, 10 if tier == "quick" else 80), ["C08"], 5, 7, tq=120, tt=1800,
                             flagsets_q=("lr", "lropt"), flagsets_t=("lr", "lropt"),
                             bounds_extra={"Memoize": "symbolic (non-optimized parsers)"},
                             assumptions=["left-recursive rules of the form A <- A a1/.../A an/b1/.../bm, entered through the leader"])
@@ -342,7 +344,7 @@ def check_C06(tier, seed):
     cases = [rel_case(g, ["C06"], [], []) for g in cat]
     # left-recursive parsers: same results under the three options (no evaluation bound is claimed for them)
     lrf = ["-support-left-recursion"]
-    cases += [rel_case(g, ["C06"], lrf, lrf, suffix="_lr") for g in cores.lr_catalogue() if not gspec.uses_state(g)]
+    cases += [rel_case(g, ["C06"], lrf, lrf, suffix="_lr") for g in cores.lr_catalogue() + cores.random_lr(seed, 6 if quick else 60) if not gspec.uses_state(g)]
     twin = rel_case(pc[0], ["TWIN"], [], [], suffix="_twin")
     catcheck.prepare(w, cases + [twin])
     agg = catcheck.explore(w, rep, cases, "C06", r"Harness_C06$", N, tmo, "rel", seed=seed, validate_pkgs=6 if quick else 20)
@@ -497,9 +499,13 @@ def go_str_lit(s):
     return json.dumps(s, ensure_ascii=True)
 
 
-def c19_grammars(quick):
+def c19_grammars(quick, seed=0):
     """(name, peg text, flags dict)"""
     out = []
+    for k, g in enumerate(rnd_cat("quick" if quick else "thorough", seed, 3, 16, ("throw",))):
+        g = json.loads(json.dumps(g))
+        alt = [e for e in (g.get("entries") or []) if e]
+        out.append((g["name"], gspec.print_peg(g, "p"), dict(optGrammar=True, optParser=k % 2 == 1, altEntry=alt)))
     hdr = "{\npackage p\n}\n"
     lr = dict(leftRec=True)
     out.append(("f1_nullable_cycle", hdr + "T <- Z / \"\"\nZ <- R2 Z / 'q'\nR2 <- T / 'a'\n", lr))
@@ -525,7 +531,7 @@ def check_C19(tier, seed):
     w.build_pigeon()
     quick = tier == "quick"
     D = 1 if quick else 2
-    gs = c19_grammars(quick)
+    gs = c19_grammars(quick, seed)
     src = ["package main\n\n", "type c19Case struct {\n\tname, text string\n\tf symFlags\n}\n\nvar c19Cases = []c19Case{\n"]
     for name, text, fl in gs:
         fields = []
@@ -727,13 +733,14 @@ def check_C13(tier, seed):
 
 
 
-def c03_roundtrip_cases(quick):
-    """(name, text, expected dump literal) for every catalogue grammar."""
+def c03_roundtrip_cases(quick, seed=0):
+    """(name, text, expected dump literal) for every catalogue grammar and a seeded random sample."""
     cats = (cores.all_c01() + cores.context_catalogue() + cores.state_catalogue() + cores.throw_catalogue() + cores.fault_catalogue() +
             cores.fail_catalogue() + cores.lr_catalogue() + cores.opt_catalogue() + cores.utf8_catalogue() + cores.budget_catalogue() +
             cores.class_catalogue() + cores.cyclic_catalogue())
     if quick:
         cats = cats[::3]
+    cats = cats + rnd_cat("quick" if quick else "thorough", seed, 16, 150, ("state", "throw"))
     out = []
     styles = [dict(sep=" ", ruleop="<-", rule_end="\n\n"), dict(sep="\n\t", ruleop="=", rule_end=";\n"),
               dict(sep="  ", ruleop="←", rule_end=" // c\n"), dict(sep=" /* x */ ", ruleop="⟵", rule_end="\n")]
@@ -753,7 +760,7 @@ def check_C03(tier, seed):
     w = Work()
     w.build_pigeon()
     quick = tier == "quick"
-    rt = c03_roundtrip_cases(quick)
+    rt = c03_roundtrip_cases(quick, seed)
     src = ["package main\n\nimport \"github.com/mna/pigeon/ast\"\n\ntype c03Case struct {\n\tname, text string\n\twant any\n}\n\nvar c03Cases = []c03Case{\n"]
     for name, text, want in rt:
         src.append("\t{%s, %s, %s},\n" % (go_str_lit(name), go_str_lit(text), want))
@@ -812,8 +819,9 @@ func Harness_C03rt(n int) {
     agg.pop("_samples", None)
     std_cov(rep, agg, rt, {"roundtrip_grammars": len(rt), "layouts": "4 styles: spaces, newline+tab with = and ;, unicode arrows with // and /* */ comments",
                            "layout_holes": "%d symbolic layout bytes at %d token boundaries of %d skeletons; comments with 2 symbolic bytes" % (hole_len, len(lay_args), len(lay)),
-                           "escape_holes": "escape bodies of length %s in double and single quotes, all bytes symbolic, assumed valid by the reference decoder" % ("1,3" if quick else "1,3,5,9"),
-                           "class_holes": "class bodies of <= %d symbolic printable ASCII bytes, ^ and i symbolic" % (3 if quick else 4),
+                           "escape_holes": "escape bodies of length %s in double and single quotes, all bytes symbolic, assumed valid by the reference decoder" % ("1,3,5" if quick else "1,3,5,9"),
+                           "class_holes": "class bodies of <= %d symbolic printable ASCII bytes, and <= %d symbolic bytes between 8 concrete prefix/suffix shapes (pending character, complete range, two ranges, leading/trailing dash); ^ and i symbolic" % ((3, 2) if quick else (4, 3)),
+                           "random_grammars": "seeded sample (seed %d) added to the round trips" % seed,
                            "operator_holes": "prefix and suffix operator symbolic in a skeleton using all eight binding levels",
                            "identifier_holes": "identifiers of <= %d symbolic ASCII characters" % (2 if quick else 3)},
             "one state = one explored path of the real front end (class of hole contents); the round trip has one path per grammar",
@@ -862,6 +870,7 @@ def check_C20(tier, seed):
     if quick:
         must = [g for g in cats if g["name"] in ("og_nestseq", "og_mixnest", "og_nestcho", "c_deepchoice", "c_labels", "cx_nested")]
         cats = cats[::4] + [g for g in must if g not in cats[::4]]
+    cats = cats + [g for g in rnd_cat(tier, seed, 24, 200) if in_bootstrap_subset(g)]
     rt = []
     for g in cats:
         g = json.loads(json.dumps(g))
